@@ -1,4 +1,5 @@
-//! Calendar queue (C01, C03): script `n t ts op*` (ts = 0: `CQueue::new`, else `CQueue::new_at`) with
+//! Calendar queue (C01, C03): script `n t ts u op*` (ts = 0: `CQueue::new`, else `CQueue::new_at`;
+//! every time is given in units of u ns, u = 0 meaning 1, and printed divided by u) with
 //! op = 1 time pay (add) | 2 k (cancel k-th handle) | 3 (fetch) | 4 (len) | 5 (time) | 6 (peek_time).
 //! Output per op: add -> 1 | fetch -> 2 pay time | len -> 3 n | time -> 4 t |
 //! cancel -> 5 | peek -> 6 0 / 6 1 t | panic -> 9 site (1 = add in the past, 2 = fetch on empty).
@@ -11,23 +12,30 @@ fn main() {
 }
 
 fn run_line(nums: &[u64]) -> Vec<u64> {
-    if nums.len() < 3 || nums[0] == 0 || nums[1] == 0 {
+    if nums.len() < 4 || nums[0] == 0 || nums[1] == 0 {
         return vec![7];
     }
     let n = nums[0] as usize;
     let t = Duration::from_nanos(nums[1]);
+    let unit: u128 = if nums[3] == 0 { 1 } else { nums[3] as u128 };
+    // x units -> Duration (exact, beyond 2^64 ns)
+    let dur = |x: u64| -> Duration {
+        let ns = x as u128 * unit;
+        Duration::new((ns / 1_000_000_000) as u64, (ns % 1_000_000_000) as u32)
+    };
+    let units = |d: Duration| -> u64 { (d.as_nanos() / unit) as u64 };
     let mut q: CQueue<u64> = if nums[2] == 0 {
         CQueue::new(n, t)
     } else {
-        CQueue::new_at(n, t, Duration::from_nanos(nums[2]))
+        CQueue::new_at(n, t, dur(nums[2]))
     };
     let mut handles: Vec<EventHandle<u64>> = Vec::new();
     let mut out = Vec::new();
-    let mut i = 3;
+    let mut i = 4;
     while i < nums.len() {
         match nums[i] {
             1 if i + 2 < nums.len() => {
-                let time = Duration::from_nanos(nums[i + 1]);
+                let time = dur(nums[i + 1]);
                 let pay = nums[i + 2];
                 i += 3;
                 match catch_unwind(AssertUnwindSafe(|| q.add(time, pay))) {
@@ -53,7 +61,7 @@ fn run_line(nums: &[u64]) -> Vec<u64> {
             3 => {
                 i += 1;
                 match catch_unwind(AssertUnwindSafe(|| q.fetch_next())) {
-                    Ok((pay, time)) => out.extend([2, pay, time.as_nanos() as u64]),
+                    Ok((pay, time)) => out.extend([2, pay, units(time)]),
                     Err(_) => out.extend([9, 2]),
                 }
             }
@@ -63,12 +71,12 @@ fn run_line(nums: &[u64]) -> Vec<u64> {
             }
             5 => {
                 i += 1;
-                out.extend([4, q.time().as_nanos() as u64]);
+                out.extend([4, units(q.time())]);
             }
             6 => {
                 i += 1;
                 match q.peek_time() {
-                    Some(t) => out.extend([6, 1, t.as_nanos() as u64]),
+                    Some(t) => out.extend([6, 1, units(t)]),
                     None => out.extend([6, 0]),
                 }
             }
